@@ -81,6 +81,8 @@ def timestamps():
         st.floats(min_value=0, max_value=4e9, allow_nan=False),
         st.integers(0, 4 * 10**9).map(float),
         st.sampled_from([0.0, 1.0, 1425356800.0, 1425356800.000001, 1425356800.999999, 1425356800.5, 0.000001, 3999999999.999999]),
+        # the last representable instants before a full second (rounding to the microsecond carries into the seconds)
+        st.tuples(st.sampled_from([0, 59, 3599, 86399, 1443193754, 1425356799, 951782399, 4102444799]), st.sampled_from([0.9999994, 0.9999995, 0.9999996, 0.9999997, 0.9999998, 0.9999999])).map(lambda p: p[0] + p[1]),
     )
 
 
@@ -216,7 +218,7 @@ def check_pretty(m):
                 back = ast.literal_eval(rendered)
             except Exception as e:
                 raise Violation("pretty-value", "block of %r does not read back (%s): %r" % (k, e, rendered[:200]))
-            require(canon(back) == canon(value) or back == value, "pretty-value", lambda: "field %r shown as %r, message has %r" % (k, back, value))
+            require(_same_value(back, value), "pretty-value", lambda: "field %r shown as %r, message has %r" % (k, back, value))
         elif isinstance(value, str):
             # pprint wraps long strings at whitespace and the formatter turns
             # escaped newlines/tabs back into real ones: every plain word of
@@ -227,10 +229,59 @@ def check_pretty(m):
                 require(word in out, "pretty-text-word", lambda: "word %r of field %r does not occur in the output:\n%s" % (word, k, out[:500]))
 
 
+def _same_value(a, b):
+    """Equal as JSON values: 1, 1.0 and true are three different values."""
+    if type(a) is not type(b):
+        return False
+    if isinstance(a, list):
+        return len(a) == len(b) and all(_same_value(x, y) for x, y in zip(a, b))
+    if isinstance(a, dict):
+        return set(a) == set(b) and all(_same_value(a[k], b[k]) for k in a)
+    if isinstance(a, float):
+        return a == b and str(a) == str(b)
+    return a == b
+
+
+def _twin_message(m, k):
+    """The same field names with values that compare equal in Python but are different JSON values."""
+    import math
+
+    def flip(v):
+        if isinstance(v, bool):
+            return int(v)
+        if isinstance(v, int) and abs(v) < 2**52:
+            return float(v)
+        if isinstance(v, float) and math.isfinite(v) and v == int(v) and abs(v) < 2**52:
+            return -v if v == 0.0 else int(v)
+        return v
+
+    out = dict(m)
+    changed = False
+    for key in sorted(m):
+        if key in REQUIRED:
+            continue
+        t = flip(m[key])
+        if repr(t) != repr(m[key]):
+            out[key] = t
+            changed = True
+    if not changed:
+        # at least change one scalar the formatters have just seen
+        out["twin_%d" % k] = True if k % 2 else 1.0
+    return out
+
+
 def check_format(case):
     m = case["message"]
     check_compact(m)
     check_pretty(m)
+    for k in range(case.get("history", 0)):
+        # a history: later messages re-use the field names with equal-but-different values
+        if k == 0:
+            m2 = dict(m, **{"twin_0": 1, "twin_1": 1, "twin_2": 0})
+        else:
+            m2 = _twin_message(m2, k)
+        check_compact(m2)
+        check_pretty(m2)
     feats = V.features(dict((k, v) for k, v in m.items() if k not in REQUIRED))
     multiline = any(isinstance(v, str) and ("\n" in v or "\t" in v) for v in m.values())
     return {"nested": feats["depth"] >= 2, "multiline": multiline, "fields": len(m) - 3}
@@ -238,6 +289,8 @@ def check_format(case):
 
 def classify_format(case, info):
     labels = ["fields=%d" % min(info["fields"], 6)]
+    if case.get("history"):
+        labels.append("history-with-equal-but-different-values")
     if info["nested"]:
         labels.append("nested-value")
     if info["multiline"]:
@@ -246,7 +299,7 @@ def classify_format(case, info):
 
 
 def format_strategy():
-    return messages().map(lambda m: {"message": m})
+    return st.builds(lambda h, m: {"history": h, "message": m}, st.sampled_from([0, 0, 2, 3]), messages())
 
 
 # ------------------------------------------------------------------- real
